@@ -137,9 +137,16 @@ struct Config {
   bool shuffleRecycle = false; // pick recycled blocks in seeded order instead of LIFO
   bool scribbleFree = false;   // a freed block is overwritten at once (as MALLOC_PERTURB_ and allocator bookkeeping do)
 };
-void begin(const Config &c);
+// What an earlier operation in the same process left in the allocator: where the heap ended and which
+// blocks it freed (they are handed out again first, last freed first, as real allocators do).
+struct Carry {
+  bool valid = false; int slot = -1; size_t bump = 0;
+  std::vector<std::pair<uint32_t, char *>> freed;     // (size in 16-byte units, block), in the order they were freed
+};
+void begin(const Config &c, const Carry *carry = nullptr);
 void end();
-struct Counters { uint64_t allocs = 0, fresh = 0, recycled = 0, bytes = 0, overflowToMalloc = 0, slot = 0, scribbled = 0; };
+void saveCarry(Carry &out);      // after end(): the state begin() can continue from
+struct Counters { uint64_t allocs = 0, fresh = 0, recycled = 0, bytes = 0, overflowToMalloc = 0, slot = 0, scribbled = 0, carried = 0; };
 extern Counters counters;
 bool available();   // false in sanitizer builds (arena disabled)
 } // namespace heap
